@@ -9,8 +9,8 @@ open TF TF.Engine TF.Spec TF.Frontend
 
 /-- The world of one compiled query (fold-count limits disabled). -/
 def worldOf3 (D : Data) (args : List (Name × Value)) (edges : List EdgeDecl) (comp : Component)
-    (tbl : List (Vid × List QField)) (ftbl : List (Eid × List FDir × QNode)) (lim : Bool := false) :
-    World :=
+    (tbl : List (Vid × List QField)) (ftbl : List (Eid × List FDir × QNode)) (T : List TagEntry)
+    (lim : Bool := false) : World :=
   { D := D, args := args, edges := edges, comp := comp
     TG := fun w => tagPairs (tblLookup tbl w)
     OG := fun w => outPairs (tblLookup tbl w)
@@ -19,11 +19,14 @@ def worldOf3 (D : Data) (args : List (Name × Value)) (edges : List EdgeDecl) (c
     CO := fun e => match ftblLookup ftbl e with | some p => countOutNames p.1 | none => []
     ON := fun e => match ftblLookup ftbl e with | some p => outNames p.2 | none => []
     IT := fun e => match ftblLookup ftbl e with | some p => treeTagNames p.2 | none => []
-    FK := fkOf comp }
+    FK := fkOf comp
+    chain := []
+    NR := fun t r => ∃ e ∈ T, e.name = t ∧ e.field = r }
 
 theorem tablesOK_worldOf3 (D args edges comp) (tbl : List (Vid × List QField))
-    (ftbl : List (Eid × List FDir × QNode)) (lim : Bool) (hn : (keysT tbl).Nodup)
-    (hfn : (ftbl.map (·.1)).Nodup) : TablesOK (worldOf3 D args edges comp tbl ftbl lim) tbl ftbl := by
+    (ftbl : List (Eid × List FDir × QNode)) (T : List TagEntry) (lim : Bool) (hn : (keysT tbl).Nodup)
+    (hfn : (ftbl.map (·.1)).Nodup) :
+    TablesOK (worldOf3 D args edges comp tbl ftbl T lim) tbl ftbl := by
   refine ⟨?_, ?_⟩
   · intro w fs hm
     have : tblLookup tbl w = fs := tblLookup_of_mem hn hm
@@ -76,12 +79,12 @@ theorem interp_eq_spec_F3a_core (S : SchemaView) (q : Query) (ir : IRQuery) (D :
     exact this
   -- the world
   obtain ⟨W, hW⟩ : ∃ W, W = worldOf3 D args edges
-      (Component.mk 1 vs acc.edges acc.folds (sortOutputs acc.outs)) tbl ftbl lim := ⟨_, rfl⟩
+      (Component.mk 1 vs acc.edges acc.folds (sortOutputs acc.outs)) tbl ftbl st1.tags lim := ⟨_, rfl⟩
   have hWcomp : W.comp = Component.mk 1 vs acc.edges acc.folds (sortOutputs acc.outs) := by rw [hW]; rfl
   have hWlim : W.lim = lim := by rw [hW]; rfl
   have hWenv : W.env = { Env.ofData D args with useLimits := lim } := by rw [hW]; rfl
   have hWsenv : W.senv = ⟨D, args, edges⟩ := by rw [hW]; rfl
-  have htab : TablesOK W tbl ftbl := by rw [hW]; exact tablesOK_worldOf3 _ _ _ _ _ _ _ htblN hftblN
+  have htab : TablesOK W tbl ftbl := by rw [hW]; exact tablesOK_worldOf3 _ _ _ _ _ _ _ _ htblN hftblN
   have hEnv : EnvOK ⟨S, D, args, edges⟩ W := by rw [hW]; exact ⟨rfl, rfl, rfl⟩
   have hcv : W.comp.vertices = vs := by rw [hWcomp]; rfl
   have hcf : W.comp.folds = acc.folds := by rw [hWcomp]; rfl
@@ -102,8 +105,12 @@ theorem interp_eq_spec_F3a_core (S : SchemaView) (q : Query) (ir : IRQuery) (D :
     rw [hW]
     simp only [wfUnique, Bool.and_eq_true] at huniq
     exact fkAll_of_unique _ huniq.2
+  have hWchain : W.chain = [] := by rw [hW]; rfl
+  have hWNR : ∀ t r, W.NR t r ↔ ∃ e ∈ st1.tags, e.name = t ∧ e.field = r := by
+    intro t r; rw [hW]; exact Iff.rfl
   have hc : CompOK W AE := by
-    refine ⟨by rw [hWcomp]; exact hwft, by rw [hWcomp]; exact hnoimp, hsorted, hvIn, ?_, hfkAll⟩
+    refine ⟨by rw [hWcomp, hWchain]; exact hwft, by rw [hWcomp, hWchain]; exact hnoimp, hsorted, hvIn, ?_,
+      hfkAll⟩
     intro f' hf'
     rw [hcf] at hf'
     refine ⟨?_, kR.foldTo f' hf'⟩
@@ -118,7 +125,7 @@ theorem interp_eq_spec_F3a_core (S : SchemaView) (q : Query) (ir : IRQuery) (D :
     rw [hcv]
     exact find?_vertex_of_mem (V := ⟨r'.vid, r'.typeName, r'.coercedFrom, fs'⟩) hndv hmem
   obtain ⟨ss, hcert, hrf⟩ := (cert_fill3 S ⟨S, D, args, edges⟩ rfl st1.tags tbl ftbl hT).1
-    _ _ _ _ _ _ _ hfill W false [] [] AE hEnv htab hc (by rw [hWlim]; exact hlim) hnode
+    _ _ _ _ _ _ _ hfill W false [] [] AE hEnv htab hWNR hc (by rw [hWlim]; exact hlim) hnode
     (nodup_of_namesDistinct hnames) h0
     (by rw [hAEDef]; simp; rfl) (by rw [htblDef]; exact fun p hp => hp)
     (by rw [hftblDef]; exact fun p hp => hp) hHV (by rw [hcf]; exact fun f hf => hf)
@@ -177,7 +184,7 @@ theorem interp_eq_spec_F3a_core (S : SchemaView) (q : Query) (ir : IRQuery) (D :
       rw [hcv, List.find?_isSome]
       exact ⟨V, hVm, by simp [hVv]⟩
   have hRC : RootCert W q ⟨q.rootEdge, rootParams, vars, W.comp⟩ ss AE := by
-    refine ⟨rfl, ?_, ?_, ?_, hsim, houts, hfuel, ?_⟩
+    refine ⟨rfl, hWchain, ?_, ?_, ?_, hsim, houts, hfuel, ?_⟩
     · have := hstart
       simp only [beq_iff_eq] at this
       rw [hW]; exact this
